@@ -452,6 +452,7 @@ static bool setctl_int(TickitTermDriver *ttd, TickitTermCtl ctl, int value)
 
       tickit_termdrv_write_str(ttd, value ? "\e[?25h" : "\e[?25l", 0);
       xd->mode.cursorvis = !!value;
+      xd->initialised.cursorvis = 1;
       return true;
 
     case TICKIT_TERMCTL_CURSORBLINK:
@@ -460,6 +461,7 @@ static bool setctl_int(TickitTermDriver *ttd, TickitTermCtl ctl, int value)
 
       tickit_termdrv_write_str(ttd, value ? "\e[?12h" : "\e[?12l", 0);
       xd->mode.cursorblink = !!value;
+      xd->initialised.cursorblink = 1;
       return true;
 
     case TICKIT_TERMCTL_MOUSE:
@@ -484,6 +486,7 @@ static bool setctl_int(TickitTermDriver *ttd, TickitTermCtl ctl, int value)
       if(xd->cap.cursorshape)
         tickit_termdrv_write_strf(ttd, "\e[%d q", value * 2 + (xd->mode.cursorblink ? -1 : 0));
       xd->mode.cursorshape = value;
+      xd->initialised.cursorshape = 1;
       return true;
 
     case TICKIT_TERMCTL_KEYPAD_APP:
@@ -559,12 +562,13 @@ static int on_modereport(TickitTermDriver *ttd, int initial, int mode, int value
   if(initial == '?') // DEC mode
     switch(mode) {
       case 12: // Cursor blink
-        if(value == 1)
+        /* a value the program has set meanwhile is newer than this report */
+        if(value == 1 && !xd->initialised.cursorblink)
           xd->mode.cursorblink = 1;
         xd->initialised.cursorblink = 1;
         break;
       case 25: // DECTCEM == Cursor visibility
-        if(value == 1)
+        if(value == 1 && !xd->initialised.cursorvis)
           xd->mode.cursorvis = 1;
         xd->initialised.cursorvis = 1;
         break;
@@ -587,7 +591,8 @@ static int on_decrqss(TickitTermDriver *ttd, const char *args, size_t arglen)
     if(sscanf(args, "%d", &value)) {
       // value==1 or 2 => shape == 1, 3 or 4 => 2, etc..
       int shape = (value+1) / 2;
-      xd->mode.cursorshape = shape;
+      if(!xd->initialised.cursorshape)
+        xd->mode.cursorshape = shape;
       xd->cap.cursorshape = 1;
     }
     xd->initialised.cursorshape = 1;
